@@ -133,7 +133,8 @@ def convert_h5_group_to_dict(
             object_,
             bytes_,
         }:
-            value = value[0] if value.size == 1 else value.tolist()
+            # A one-element array is a list of one string (a scalar string is read as bytes).
+            value = value.tolist()
 
         if isinstance(value, bytes):
             value = value.decode()
